@@ -372,6 +372,7 @@ fn main() {
         rule: "random operation scripts (add / publish / remove / set_complete over 1..8 objects with hostile metadata strings, per-object OTI overrides for all schemes, every cache-control variant, session and object groups, FDT cenc, both publish modes, fdt_start_id incl. just below the 2^20 wrap, durations 2 s..3 d, virtual time across several expiry periods) are run on the real sender; every emitted FDT instance is reassembled by the independent decoder and judged: ids consecutive mod 2^20, one content per id, Expires = publish second + duration, listing = model set (built from the operation log and Start/Stop events) in force at the publish second, every attribute equal to what the sender was given after parsing with expat (pychk/fdt_check.py), XSD validation with xmllint, fdt_received XML identical; supersession is judged on dedicated expiry workloads polled every 50 ms; a case is one script, non-trivial when at least one complete instance was observed; distinct = discretised script shape",
         assumptions: vec![
             "order of File elements is free".into(),
+            "an FDT instance without any File element (empty listing) is schema-invalid by construction of the RFC 6726 schema; XSD validity is only judged for instances listing at least one file (well-formedness and all other checks still apply)".into(),
             "when several model sets were in force during the publish second, any of them is an admissible listing".into(),
             "supersession is only judged for drain polling with period <= 100 ms and no explicit publish interfering".into(),
             "trusted: expat (python xml.etree), xmllint + the repository's XSD, independent wire decoder".into(),
@@ -455,7 +456,7 @@ fn main() {
                 Err(p) => cr.violations.push(Violation::new(if p.is_step_budget() { "hang" } else { "panic" }, format!("{} @ {}", p.msg, p.short_loc())).with("site", if p.is_step_budget() { p.step_site() } else { p.file() })
                     .witness(json!({"sender": spec.json(), "objects": objs.iter().map(|o| o.json()).collect::<Vec<_>>(), "script": format!("{:?}", script)}))),
             }
-            cr.violations.truncate(4);
+            limit(&mut cr.violations, 4);
             cr
         }));
         // ---- wrap: many publications from just below 2^20
@@ -585,7 +586,16 @@ fn main() {
             }
             cr.count("xml_parsed_by_expat", res["parsed"].as_u64().unwrap_or(0));
             cr.count("xml_xsd_validated", res["xsd_validated"].as_u64().unwrap_or(0));
+            let mut per_sig: std::collections::HashMap<String, usize> = Default::default();
             for f in res["failures"].as_array().cloned().unwrap_or_default() {
+                // keep a few witnesses per kind of failure so that a frequent (known) kind
+                // can never crowd out a rare one
+                let key = format!("{}|{}|{}", f["clause"], f["field"], f["whitespace_normalised"]);
+                let n = per_sig.entry(key).or_insert(0);
+                *n += 1;
+                if *n > 5 {
+                    continue;
+                }
                 let id = f["id"].as_str().unwrap_or("");
                 let item = mine.iter().find(|x| x.0 == id);
                 let mut v = Violation::new(f["clause"].as_str().unwrap_or("xml"), format!("FDT instance {}: {}", id, f["detail"].as_str().unwrap_or("")));
@@ -601,9 +611,7 @@ fn main() {
                     let ctl = x.1.contains('\t') || x.1.matches('\n').count() > 1;
                     v = v.with("xml_has_raw_tab_or_newline", ctl);
                 }
-                if cr.violations.len() < 30 {
-                    cr.violations.push(v);
-                }
+                cr.violations.push(v);
             }
             cr.shape = Some(util::fnv(&format!("xmlbatch{}", b)));
             cr.sample = Some(json!({"batch": b, "documents": mine.len(), "parsed_by_expat": res["parsed"], "xsd_validated": res["xsd_validated"]}));
